@@ -123,3 +123,96 @@ Proof.
   - eapply rmq_nodup_mono; [|done]. intros c' [cs' Hc']. unfold Cn' in Hc'.
     apply lookup_insert_Some in Hc' as [[<- <-]|[Hne Hc']]; eauto.
 Qed.
+
+(* ---------------------------------------------------------------- the pending-call bundle *)
+Definition PC (q : list (N * conn * call_result)) (Cn : gmap conn cstate) (K : gmap N call) : Prop :=
+  call_entry Cn K ∧ entry_call q Cn K ∧ rmq_entry q Cn K ∧ rmq_nodup Cn q.
+
+(* ---------------------------------------------------------------- abort_call *)
+Section mark.
+  Context (K : gmap N call) (b : N) (cl : call).
+  Hypothesis Hb : K !! b = Some cl.
+  Hypothesis Ha : c_aborted cl = false.
+  Let K' := <[b := cl <| c_aborted := true |>]> K.
+
+  Lemma mark_calls_svc S : calls_svc S K → calls_svc S K'.
+  Proof.
+    intros H b0 cl0. unfold K'. rewrite lookup_insert_Some. intros [[<- <-]|[_ H0]]; [|eauto].
+    apply (H _ _ Hb).
+  Qed.
+  Lemma mark_svc_calls S : svc_calls S K → svc_calls S K'.
+  Proof.
+    intros H k sv b0 Hk Hin. destruct (H _ _ _ Hk Hin) as (cl0 & H0 & Hs). unfold K'.
+    destruct (decide (b0 = b)) as [->|Hne].
+    - rewrite lookup_insert. eexists. split; [done|]. cbn. congruence.
+    - rewrite lookup_insert_ne by done. eauto.
+  Qed.
+  Lemma mark_calls_bound n : calls_bound K n → calls_bound K' n.
+  Proof.
+    intros H b0 Hs. apply H. unfold K' in Hs. apply lookup_insert_is_Some in Hs as [<-|[_ ?]]; eauto.
+  Qed.
+  Lemma mark_caller_live wa X callee : caller_live ((b, callee) :: wa) X K → caller_live wa X K'.
+  Proof.
+    intros H b0 cl0. unfold K'. rewrite lookup_insert_Some. intros [[<- <-]|[Hne H0]] Ha0; [done|].
+    destruct (H _ _ H0 Ha0) as [?|[ce Hin]]; [by left|]. right. exists ce.
+    apply elem_of_cons in Hin as [Hin|?]; [|done]. inversion Hin; subst. done.
+  Qed.
+
+  Lemma mark_pend q Cn : PC q Cn K →
+    match Cn !! c_caller cl with
+    | None => PC q Cn K'
+    | Some cs => is_Some (cs_calls cs !! c_serial cl) ∧
+                 PC q (<[c_caller cl := cs <| cs_calls ::= delete (c_serial cl) |>]> Cn) K'
+    end.
+  Proof.
+    intros (Hce & Hec & Hqe & Hqn). destruct (Cn !! c_caller cl) as [cs|] eqn:Ec.
+    - destruct (Hce _ _ _ Hb Ha Ec) as (ce & He). split; [eauto|].
+      set (Cn' := <[c_caller cl := cs <| cs_calls ::= delete (c_serial cl) |>]> Cn).
+      assert (∀ c' cs' serial b0 ce0, Cn' !! c' = Some cs' → cs_calls cs' !! serial = Some (b0, ce0) →
+                ∃ cs0, Cn !! c' = Some cs0 ∧ cs_calls cs0 !! serial = Some (b0, ce0) ∧ b0 ≠ b) as Hold.
+      { intros c' cs' serial b0 ce0 Hc' He'. unfold Cn' in Hc'.
+        apply lookup_insert_Some in Hc' as [[<- <-]|[Hne Hc']].
+        - cbn in He'. apply lookup_delete_Some in He' as [Hns He']. exists cs. split; [done|]. split; [done|].
+          intros ->. destruct (Hec _ _ _ _ _ Ec He') as [(cl0 & H1 & H2 & H3 & H4)|[H1 _]]; [|congruence].
+          rewrite Hb in H1. inversion H1; subst. done.
+        - exists cs'. split; [done|]. split; [done|].
+          intros ->. destruct (Hec _ _ _ _ _ Hc' He') as [(cl0 & H1 & H2 & H3 & H4)|[H1 _]]; [|congruence].
+          rewrite Hb in H1. inversion H1; subst. done. }
+      split; [|split; [|split]].
+      + intros b0 cl0 cs'. unfold K'. rewrite lookup_insert_Some. intros [[<- <-]|[Hne H0]] Ha0 Hc'; [done|].
+        unfold Cn' in Hc'. apply lookup_insert_Some in Hc' as [[Heq <-]|[Hnc Hc']]; [|eauto].
+        rewrite Heq in Ec. destruct (Hce _ _ _ H0 Ha0 Ec) as (ce0 & He0). exists ce0. cbn.
+        rewrite lookup_delete_ne; [done|]. intros Hs. rewrite Hs in He. rewrite He in He0. inversion He0. done.
+      + intros c' cs' serial b0 ce0 Hc' He'. destruct (Hold _ _ _ _ _ Hc' He') as (cs0 & G1 & G2 & G3).
+        destruct (Hec _ _ _ _ _ G1 G2) as [(cl0 & H1 & H2)|[H1 H2]].
+        * left. exists cl0. split; [|done]. unfold K'. by rewrite lookup_insert_ne.
+        * right. split; [|done]. unfold K'. by rewrite lookup_insert_ne.
+      + intros serial c' r cs' Hq Hc'. unfold Cn' in Hc'.
+        apply lookup_insert_Some in Hc' as [[<- <-]|[Hnc Hc']].
+        * destruct (Hqe _ _ _ _ Hq Ec) as (b0 & ce0 & G1 & G2). exists b0, ce0.
+          assert (b0 ≠ b) by congruence. split; [|unfold K'; by rewrite lookup_insert_ne].
+          cbn. rewrite lookup_delete_ne; [done|]. intros Hs. rewrite Hs in He. congruence.
+        * destruct (Hqe _ _ _ _ Hq Hc') as (b0 & ce0 & G1 & G2). exists b0, ce0.
+          assert (b0 ≠ b) by congruence. split; [done|unfold K'; by rewrite lookup_insert_ne].
+      + eapply rmq_nodup_mono; [|done]. intros c' [cs' Hc']. unfold Cn' in Hc'.
+        apply lookup_insert_Some in Hc' as [[<- <-]|[Hnc Hc']]; eauto.
+    - split; [|split; [|split]]; [| | |done].
+      + intros b0 cl0 cs'. unfold K'. rewrite lookup_insert_Some. intros [[<- <-]|[Hne H0]] Ha0 Hc'; [done|eauto].
+      + intros c' cs' serial b0 ce0 Hc' He'.
+        destruct (Hec _ _ _ _ _ Hc' He') as [(cl0 & H1 & H2 & H3)|[H1 H2]].
+        * left. exists cl0. split; [|done]. unfold K'. rewrite lookup_insert_ne; [done|].
+          intros <-. rewrite Hb in H1. inversion H1; subst. congruence.
+        * right. split; [|done]. unfold K'. rewrite lookup_insert_ne; [done|]. congruence.
+      + intros serial c' r cs' Hq Hc'. destruct (Hqe _ _ _ _ Hq Hc') as (b0 & ce0 & G1 & G2).
+        exists b0, ce0. split; [done|]. unfold K'. rewrite lookup_insert_ne; [done|]. congruence.
+  Qed.
+End mark.
+
+(* popping a w_abort item whose call is gone or already aborted *)
+Lemma caller_live_pop wa X K b callee :
+  (∀ cl, K !! b = Some cl → c_aborted cl = true) →
+  caller_live ((b, callee) :: wa) X K → caller_live wa X K.
+Proof.
+  intros Hd H b0 cl0 H0 Ha0. destruct (H _ _ H0 Ha0) as [?|[ce Hin]]; [by left|]. right. exists ce.
+  apply elem_of_cons in Hin as [Hin|?]; [|done]. inversion Hin; subst. rewrite (Hd _ H0) in Ha0. done.
+Qed.
